@@ -7,10 +7,11 @@
    Property theorems only: each is closed by [exact <lemma>] and followed by Print Assumptions. *)
 From Coq Require Import String.
 From Verif Require Import Bytes Base64 LineBreaker QP HeaderFold WordEnc Writer MimeTree MimeRead Render.
-From Verif Require Import Eml EmlRender EmlWriter EmlFront EmlRoundtrip EmlWord.
+From Verif Require Import HeaderScan.
+From Verif Require Import Eml EmlRender EmlWriter EmlFront EmlRoundtrip EmlWord EmlRerender.
 From VerifGen Require Import Gen.
 From VerifProofs Require Import RenderProofs MimeReadProofs C01Proofs.
-From VerifProofs Require Import EmlProofs EmlRenderProofs EmlWriterProofs EmlCodecProofs EmlRoundtripMain EmlStructureProofs EmlRoundtripExample EmlWordProofs EmlSubjectProofs EmlWordValueProofs.
+From VerifProofs Require Import EmlProofs EmlRenderProofs EmlWriterProofs EmlCodecProofs EmlRoundtripMain EmlStructureProofs EmlRoundtripExample EmlWordProofs EmlSubjectProofs EmlWordValueProofs EmlRerenderProofs EmlRerenderFieldsProofs.
 
 (* (A) For every parsed message (any header content, any part tree) and whichever of From/To/Cc are
    present, the top-level header block written by the next render names no field twice.
@@ -221,7 +222,7 @@ Theorem C10_parse_canonical : forall (pa pl : bytes -> ares) (pd : bytes -> dres
   in_feature_set m = true -> good_value d = true -> good_value i = true ->
   oracles_ok pa pl pd d m -> boundaries_ok z = true ->
   exists st, parse_eml_fixed (top_of_fnode pa pl pd (ctree z)) = Ok st /\
-             project_parsed st = project_built d m.
+             project_parsed st = project_built d m /\ parsed_as d i m st.
 Proof. exact parse_ctree. Qed.
 Print Assumptions C10_parse_canonical.
 
@@ -241,7 +242,7 @@ Theorem C10_parse_render : forall (pa pl : bytes -> ares) (pd : bytes -> dres) (
   in_feature_set m = true -> good_value d = true -> good_value i = true ->
   oracles_ok pa pl pd d m -> boundaries_ok z = true -> fresh_expected z = true ->
   exists st, eml_parse pa pl pd (r_out (write_to d i rb m unlimited)) = Ok st /\
-             project_parsed st = project_built d m.
+             project_parsed st = project_built d m /\ parsed_as d i m st.
 Proof. exact parse_render. Qed.
 Print Assumptions C10_parse_render.
 
@@ -289,3 +290,92 @@ Theorem C10_encoded_value_in_feature_set : forall (e : N) (s : bytes),
   good_value (word_encode e s) = true.
 Proof. exact encoded_value_good. Qed.
 Print Assumptions C10_encoded_value_in_feature_set.
+
+
+(* =====================================================================================================
+   SECOND HALF: rendering the parsed Msg again gives a well-formed message that an independent reader
+   maps to the same content.
+   EmlRerender.msg_of_parsed = the Writer.msg the parsed Msg denotes (generic headers re-encoded by
+   SetGenHeader, parts with explicit charset/encoding and the decoded content, files as AttachReader /
+   EmbedReader + WithFileContentID create them); tied to the real code by the correspondence kind "rr":
+   the writer model applied to it reproduces the bytes of the real second WriteTo.
+   ===================================================================================================== *)
+
+(* what EMLToMsg makes of the rendering of a feature-set message is [reparsed]: the closure statement.
+   It differs from m in: Date / Message-ID / MIME-Version / User-Agent / X-Mailer now stored as generic
+   headers, explicit part charsets, decoded contents as producers (quoted-printable: canonical CRLF),
+   the Content-ID of embeds preset in the header cache - so it is NOT in in_feature_set (which demands a
+   Subject-only generic header list and empty header caches); the theorems below treat that shape directly *)
+Theorem C10_msg_of_parsed : forall (mime_of : bytes -> bytes) (d i : bytes) (m : Writer.msg) (st : mstate),
+  in_feature_set m = true -> good_value d = true -> good_value i = true ->
+  parsed_as d i m st -> msg_of_parsed mime_of st = reparsed mime_of d i m.
+Proof. exact msg_of_parsed_reparsed. Qed.
+Print Assumptions C10_msg_of_parsed.
+
+(* the header texts of the second rendering are those of the first (top-level block shown here; the
+   part and file header blocks: part2_hdr_same, file2_hdr_same), so the trees differ in boundaries and
+   re-encoded bodies only *)
+Theorem C10_rerender_same_top_headers : forall (mime_of : bytes -> bytes) (d i : bytes) (rb : list bytes) (m : Writer.msg)
+    (d2 i2 : bytes) (rb2 : list bytes),
+  in_feature_set m = true ->
+  top_headers (z_msg (resolve d2 i2 rb2 (reparsed mime_of d i m))) = top_headers (z_msg (resolve d i rb m)).
+Proof. exact top_headers_same. Qed.
+Print Assumptions C10_rerender_same_top_headers.
+
+(* C10_rerender.  Hypotheses of C10_parse_render, plus: the media type of every file is the one
+   derived from its name (mime_of = mime.TypeByExtension, oracle), and H-rand for the boundaries rb2 of
+   the second render.  Then: the parse succeeds, the parsed Msg denotes [reparsed], the independent
+   reader (MimeRead.read_tree) reads the second rendering as expected_tree z2, the content it finds
+   there - per leaf: type, charset, DECODED content, file name, kind ([tree_content]) - is the content
+   of the first rendering, and the decoded contents are those of the message that was built. *)
+Theorem C10_rerender : forall (pa pl : bytes -> ares) (pd : bytes -> dres) (mime_of : bytes -> bytes)
+    (d i : bytes) (rb : list bytes) (m : Writer.msg) (d2 i2 : bytes) (rb2 : list bytes),
+  let z := resolve d i rb m in
+  let m2 := reparsed mime_of d i m in
+  let z2 := resolve d2 i2 rb2 m2 in
+  in_feature_set m = true -> good_value d = true -> good_value i = true ->
+  oracles_ok pa pl pd d m -> boundaries_ok z = true -> fresh_expected z = true ->
+  (forall f, In f (m_embeds m ++ m_attach m) -> f_mime f = mime_of (f_name f)) ->
+  fresh_expected z2 = true ->
+  exists st, eml_parse pa pl pd (r_out (write_to d i rb m unlimited)) = Ok st /\
+    msg_of_parsed mime_of st = m2 /\
+    read_tree (r_out (write_to d2 i2 rb2 (msg_of_parsed mime_of st) unlimited)) = Some (expected_tree z2) /\
+    tree_content (expected_tree z2) = tree_content (expected_tree z) /\
+    map (option_map lc_content) (tree_content (expected_tree z2))
+    = map Some (map (fun p => expected_content (Writer.p_enc p) (content_of (p_prod p))) (Writer.m_parts m)
+                ++ map (fun f => content_of (f_prod f)) (m_embeds m)
+                ++ map (fun f => content_of (f_prod f)) (m_attach m)).
+Proof. exact rerender_reads. Qed.
+Print Assumptions C10_rerender.
+
+(* well-formed: the strict RFC 5322 scanner (HeaderScan.field_names, composed with
+   C02's message_header_fields) accepts the header section of the second rendering and finds no field
+   name twice *)
+Theorem C10_rerender_field_names : forall (mime_of : bytes -> bytes) (d i : bytes) (m : Writer.msg) (d2 i2 : bytes) (rb2 : list bytes),
+  let m2 := reparsed mime_of d i m in
+  let z2 := resolve d2 i2 rb2 m2 in
+  in_feature_set m = true -> good_value d = true -> good_value i = true ->
+  (forall f, In f (m_embeds m ++ m_attach m) -> f_mime f = mime_of (f_name f)) ->
+  boundaries_ok z2 = true ->
+  exists ns, field_names (r_out (write_to d2 i2 rb2 m2 unlimited)) = Some ns /\ NoDup ns.
+Proof. exact rerender_field_names. Qed.
+Print Assumptions C10_rerender_field_names.
+
+(* satisfiable and not vacuous: the example message, second boundaries, computed directly *)
+Example C10_rerender_hypotheses_satisfiable :
+  (forall f, In f (m_embeds ex10 ++ m_attach ex10) -> f_mime f = ex_mime_of (f_name f)) /\
+  fresh_expected ex10_z2 = true /\ boundaries_ok ex10_z2 = true.
+Proof. exact ex10_rerender_hypotheses. Qed.
+
+Example C10_rerender_example :
+  exists st t2, eml_parse ex_pa ex_pl ex_pd (r_out (write_to ex10_date ex10_msgid ex10_rb ex10 unlimited)) = Ok st /\
+    read_tree (EmlRerender.rerender ex_mime_of ex10_rb2 st) = Some t2 /\
+    tree_content t2 = tree_content (expected_tree ex10_z) /\ length (tree_content t2) = 4%nat.
+Proof. exact ex10_rerender_direct. Qed.
+
+(* refuted complement (known finding 7bit-requoted): each trip quotes a 7bit body once more *)
+Example C10_rerender_7bit_refuted :
+  exists st t2, eml_parse ex_pa ex_pl ex_pd (r_out (write_to ex10_date ex10_msgid ex10_rb ex7 unlimited)) = Ok st /\
+    read_tree (EmlRerender.rerender ex_mime_of ex10_rb2 st) = Some t2 /\
+    map (option_map lc_content) (tree_content t2) = [Some (bs "a=3D3Db")].
+Proof. exact ex7_rerender_refuted. Qed.
